@@ -542,3 +542,38 @@ def shared_reagent_union(draw):
     a1, b1 = oracle.split_reaction(rxs[i])
     a2, b2 = oracle.split_reaction(rxs[j])
     return a1 + "." + a2 + ">>" + b1 + "." + b2, ["balanced", "shared-reagent-union"]
+
+
+@functools.lru_cache(maxsize=None)
+def chiral_molecules(max_heavy=20):
+    return tuple(m for m in load_molecules(True, max_heavy) if "@" in m)
+
+
+def mirror(smiles):
+    """the enantiomer / opposite-configured diastereomer spelling: every @ <-> @@"""
+    return smiles.replace("@@", "\0").replace("@", "@@").replace("\0", "@")
+
+
+@st.composite
+def near_duplicate_pair_reaction(draw):
+    """a side that holds two molecules differing only in stereo or isotope labels (both enantiomers written out, a
+    labelled and an unlabelled copy), reacting to one copy's skeleton"""
+    kind = draw(st.sampled_from(["stereo", "stereo", "isotope"]))
+    if kind == "stereo":
+        m = draw(indexed(chiral_molecules()))
+        twin = mirror(m)
+    else:
+        m = draw(indexed(load_molecules(True, 16)[len(PRIMITIVES):]))
+        mol = Chem.MolFromSmiles(m)
+        cs = [a.GetIdx() for a in mol.GetAtoms() if a.GetSymbol() == "C"]
+        if not cs:
+            m, twin = "CC(N)C(=O)O", "[13CH3]C(N)C(=O)O"
+        else:
+            twin = Chem.MolToSmiles(_isotope(mol, cs[draw(st.integers(0, len(cs) - 1))], 13))
+    if oracle.canon(twin) is None or oracle.canon(twin) == oracle.canon(m):
+        m, twin = "C[C@H](N)C(=O)O", "C[C@@H](N)C(=O)O"
+    flat = oracle.canon(m, isomeric=False)
+    pair = [m, twin] if draw(st.booleans()) else [twin, m]
+    if draw(st.booleans()):
+        return ".".join(pair) + ">>" + flat, ["near-duplicate-pair"]
+    return flat + ">>" + ".".join(pair), ["near-duplicate-pair"]
